@@ -469,9 +469,18 @@ def _copyval(out):
     return None if a.dtype == object else a
 
 
+CACHE_KW = ("clear_cache_every_nbr_calc", "memory_threshold_inGB")
+
+
+def _nocache(kw):
+    """the reference instances use the default cache settings (cache
+    settings never change a value)"""
+    return {k: v for k, v in kw.items() if k not in CACHE_KW}
+
+
 def fresh_value(fd, row, name, kw):
     """value of one variable from a fresh AurelCore on this step's inputs"""
-    rel = aurel.AurelCore(fd, verbose=False, **kw)
+    rel = aurel.AurelCore(fd, verbose=False, **_nocache(kw))
     for k, v in row.items():
         rel.data[k] = np.array(v, copy=True) if isinstance(v, np.ndarray) \
             else v
@@ -487,7 +496,7 @@ def replica_values(fd, row, entries, kw):
     """all requested variables from ONE fresh AurelCore on this step's
     inputs, requested in over_time's order (custom first), each value copied
     as soon as it is obtained"""
-    rel = aurel.AurelCore(fd, verbose=False, **kw)
+    rel = aurel.AurelCore(fd, verbose=False, **_nocache(kw))
     for k, v in row.items():
         rel.data[k] = np.array(v, copy=True) if isinstance(v, np.ndarray) \
             else v
@@ -785,7 +794,8 @@ def test_case(case, note):
         note.cls("invalid-est-name")
     if any(isinstance(e, list) and len(e) > 1 for e in case["vars"]):
         note.cls("custom-dict-of-2")
-    for k in ("Lambda", "vacuum", "clear_cache_every_nbr_calc"):
+    for k in ("Lambda", "vacuum", "clear_cache_every_nbr_calc",
+              "memory_threshold_inGB"):
         if kw.get(k):
             note.cls("kw:" + k)
     if any(c.get("repeat") for c in case["calls"][1:]):
@@ -889,6 +899,10 @@ def case_strategy(draw, wide=False):
         kw["vacuum"] = True
     if draw(st.integers(0, 3)) == 0:
         kw["clear_cache_every_nbr_calc"] = draw(st.sampled_from([2, 3, 7]))
+    if draw(st.integers(0, 4)) == 0:
+        # memory limit below the size of the step's inputs: the memory stage
+        # of the clean-up runs after every calculation
+        kw["memory_threshold_inGB"] = draw(st.sampled_from([1e-7, 2e-5]))
 
     if wide:
         pool = WIDE_POOL
